@@ -424,6 +424,11 @@ pub fn generate(prop: &str, tier: &str, seed: u64, out: &mut impl Write) {
                 for k in 0..=f.len() { emit(&f[..k], out, r); }
             }
             for n in [254usize, 255, 256, 257, 258, 300, 512, 513, 600] { for v in [0x42u8, 0x00, 0xFF] { emit(&vec![v; n], out, r); } }
+            // count fields at their extremes (one- and two-byte counts), at the RTU and TCP positions
+            for fc in [0x18u8, 0x01, 0x03, 0x0C, 0x17, 0x0F, 0x10] { for c in [0u16, 0x00FF, 0xFF00, 0xFFFC, 0xFFFD, 0xFFFE, 0xFFFF] {
+                let mut b = vec![0x11, fc, (c >> 8) as u8, c as u8, c as u8, 0, c as u8, 0, 0, 0, c as u8, 0]; emit(&b, out, r);
+                b = vec![0, 1, 0, 0, 0, 6, 0x11, fc, (c >> 8) as u8, c as u8, 0, 0, c as u8, 0, 0, 0, c as u8, 0]; emit(&b, out, r);
+            } }
             // CRC-valid / MBAP-valid frames carrying illegal PDUs
             for pdu in [vec![0x05u8, 0, 1, 0x12, 0x34], vec![0x83], vec![0x83, 0x07], vec![0x0F, 0, 0, 0, 8, 9], vec![0x10, 0, 0, 0, 2, 9, 1, 2], vec![0x01], vec![0x17, 0, 0, 0, 0, 0, 0, 0, 1, 200], vec![0x03, 0xFF]] {
                 emit(&rtu_frame(1, &pdu), out, r);
@@ -678,6 +683,17 @@ pub fn generate(prop: &str, tier: &str, seed: u64, out: &mut impl Write) {
                         w!("rtulen req {h}"); w!("rtulen rsp {h}"); w!("tcplen req {h}"); w!("tcplen rsp {h}");
                         w!("#@ C15 {h} {}", r.next() >> 1);
                     }
+                }
+            }
+            // the two-byte count of function 0x18 at its extremes, at the RTU and TCP positions
+            for c in [0u16, 1, 0x00FF, 0x0100, 0x7FFF, 0x8000, 0xFF00, 0xFFFC, 0xFFFD, 0xFFFE, 0xFFFF] {
+                for len in [3usize, 4, 5, 9, 10, 11, 14] {
+                    let mut b = r.bytes(len);
+                    for pos in [1usize, 7] { if len > pos { b[pos] = 0x18; } }
+                    for pos in [2usize, 8] { if len > pos + 1 { b[pos] = (c >> 8) as u8; b[pos + 1] = c as u8; } }
+                    let h = hex_of(&b);
+                    w!("rtulen req {h}"); w!("rtulen rsp {h}"); w!("tcplen req {h}"); w!("tcplen rsp {h}");
+                    w!("#@ C15 {h} {}", r.next() >> 1);
                 }
             }
             // real frames with non-zero neighbouring fields
